@@ -43,7 +43,7 @@ def run(ctx, res):
         ex = [c for i, c in enumerate(ex) if (i // 2 + i) % 2 == 0]
     else:
         ex = R.exhaustive_cases(3, 4, hints=hints) + R.exhaustive_cases(4, 2)[len(R.exhaustive_cases(3, 2)):]
-    rnd = [R.gen_case(rng) for _ in range(ctx.n(1600, 20000))]
+    rnd = [R.gen_case(rng) for _ in range(ctx.n(3200, 30000))]
     # optimality concerns contests for which an audit is possible: of the exhaustive stream keep the non-empty outputs
     # (emptiness is C04's equation `output = [] <-> possible = false`, checked there on the whole stream)
     ex = [c for c in R.run_cases(ex) if c["impl"]["out"] is None or c["impl"]["out"]]
